@@ -144,6 +144,58 @@ def check_same_object(acc):
                 check_lib(("same-object",) + names, spec, acc, route, lib=lib, case_extra={"same_object": list(names)})
 
 
+EDIT_SPECS = [
+    ("\t", 0, False, "\n\n", DEFAULT_PFC),
+    ("\t", 12, False, "\n\n", DEFAULT_PFC),
+    ("\t", 4, False, "\n\n", DEFAULT_PFC),
+    ("\t", "auto", False, "\n\n", DEFAULT_PFC),
+    ("  ", 0, False, "\n\n", DEFAULT_PFC),
+    ("", 12, True, "\n", DEFAULT_PFC),
+    ("\t", 0, True, "\n\n", DEFAULT_PFC),
+    ("\t", 0, False, "\n% --\n", "% failed ({n} lines)"),
+    (" ", 40, True, "", ""),
+]
+
+
+def check_format_edited(acc):
+    """ONE format object, edited by the caller between writes (every ordered pair of settings, and back again): each
+    write is what a fresh format object holding the settings of that moment gives."""
+    for route in ("verbatim", "default"):
+        kw = {"unparse_stack": []} if route == "verbatim" else {}
+        uni = universe()
+        lib = Library([uni["E1"], uni["S"], uni["E3"], uni["PF"], uni["IC"], uni["E5"], uni["E0"]])
+        fresh = {}
+        for spec in EDIT_SPECS:
+            try:
+                fresh[spec] = bibtexparser.write_string(lib, bibtex_format=mkformat(spec), **kw)
+            except Exception as ex:
+                acc.exception(ex, {"format_edited": [list(spec)], "route": route}, "write_string")
+                return
+        for a in EDIT_SPECS:
+            for b in EDIT_SPECS:
+                if a == b:
+                    continue
+                acc.trace(3)
+                acc.case(nontrivial_key=("format-edited", route, a, b))
+                acc.count("format_edited_sequences")
+                f = mkformat(a)
+                seq = []
+                try:
+                    for spec in (a, b, a):
+                        f.indent, f.value_column, f.trailing_comma, f.block_separator, f.parsing_failed_comment = spec
+                        seq.append(list(spec))
+                        out = bibtexparser.write_string(lib, bibtex_format=f, **kw)
+                        if out != fresh[spec]:
+                            acc.violation(
+                                {"oracle": "edited_format_equals_fresh_format", "write_number": len(seq)},
+                                {"case": {"format_edited": seq, "route": route}, "observed": out, "expected": fresh[spec]},
+                            )
+                            break
+                except Exception as ex:
+                    acc.exception(ex, {"format_edited": seq, "route": route}, "write_string")
+                acc.step(("format", a), ("edit", b), hash(fresh[b]))
+
+
 def check_history(acc):
     """The same Library and BibtexFormat objects over a history of writes and in-place edits (longer / shorter keys,
     added and removed fields and blocks): every write obeys the contract for the library as it is then."""
@@ -409,6 +461,7 @@ def run_shard(shard, tier, acc):
     if shard[0] == "history":
         return check_history(acc)
     if shard[0] == "same":
+        check_format_edited(acc)
         return check_same_object(acc)
     if shard[0] == "wide":
         return check_wide(acc, tier)
@@ -443,6 +496,8 @@ def replay(case, acc):
         return check_history(acc)
     if "same_object" in case:
         return check_same_object(acc)
+    if "format_edited" in case:
+        return check_format_edited(acc)
     if "wide" in case:
         ks, kl = case["wide"]
         lib = Library([Entry("article", "w1", [Field("k" * ks, "{short}"), Field("m" * kl, "{long}"), Field("z", "1")]), Entry("book", "w2", [Field("y", "{other entry}")])])
